@@ -24,7 +24,7 @@ from . import exprsem, relmodel
 from .relmodel import Tab
 from .symx import SymInt, Skip, zint
 
-UNARY = ("calc", "proj", "sel", "dedup", "sort", "slice", "mat", "xfer", "tag", "proc", "cust", "xferp", "twice", "tagp")
+UNARY = ("calc", "proj", "sel", "dedup", "sort", "slice", "mat", "xfer", "tag", "proc", "cust", "xferp", "twice", "tagp", "custr")
 
 
 @dataclasses.dataclass(frozen=True)
@@ -197,7 +197,7 @@ def expression_history(env, *nodes):
                 pass
 
 
-_OPS = ("leaf", "calc", "proj", "sel", "dedup", "sort", "slice", "chain", "join", "mat", "xfer", "tag", "proc", "cust", "xferp", "twice", "tagp")
+_OPS = ("leaf", "calc", "proj", "sel", "dedup", "sort", "slice", "chain", "join", "mat", "xfer", "tag", "proc", "cust", "xferp", "twice", "tagp", "custr")
 _USER_MARKER = []
 _USER_FILTER = []
 _HENGINE = []
@@ -228,6 +228,27 @@ def user_filter_class():
     return _USER_FILTER[0]
 
 
+_USER_REORDER = []
+
+
+def user_reordering_class():
+    """A user-defined Reordering (documented extension point) that reverses the row order: order-dependent, count-invariant."""
+    if not _USER_REORDER:
+        from lsst.daf.relation import Reordering
+
+        @dataclasses.dataclass(frozen=True)
+        class Reverse(Reordering):
+            def __str__(self):
+                return "reverse"
+
+            @property
+            def is_order_dependent(self):
+                return True
+
+        _USER_REORDER.append(Reverse)
+    return _USER_REORDER[0]
+
+
 def harness_engine_class():
     """iteration.Engine with the documented hook for custom unary operations implemented the way its docstring suggests
     ("typically [the target] will be passed to execute and the result used to construct a new RowIterable")."""
@@ -238,6 +259,8 @@ def harness_engine_class():
             def apply_custom_unary_operation(self, operation, target):
                 if isinstance(operation, user_filter_class()):
                     return self.execute(target)
+                if isinstance(operation, user_reordering_class()):
+                    return iteration.RowSequence(list(self.execute(target))[::-1])
                 return super().apply_custom_unary_operation(operation, target)
 
         _HENGINE.append(HEngine)
@@ -414,6 +437,8 @@ def _build(node, env, memo):
         # keep and re-use them)
         the_op = make_op(node[1], env)
         r = the_op.apply(the_op.apply(build(node[1][1], env, memo)))
+    elif op == "custr":
+        r = user_reordering_class()().apply(build(node[1], env, memo))
     elif op == "cust":
         r = user_filter_class()().apply(build(node[1], env, memo))
     elif op == "proc":
@@ -449,6 +474,8 @@ def _sem_seq(node, env, prefer):
     sqlm = getattr(env, "sql_mode", False)
     if op == "twice":
         return _sem_seq(expand_twice(node), env, prefer)
+    if op == "custr":
+        return relmodel.reverse(_sem_seq(node[1], env, prefer))
     if op == "leaf":
         t = env.tables[node[1]]
         if node[1] in DECLARED_COLS and set(t.cols) > set(DECLARED_COLS[node[1]]):
@@ -641,6 +668,8 @@ def _apply_lib_op(t, o, strict=False, count_mode=False):
         raise IllFormed(f"{o} requires {sorted(req - t.cols)} not in {sorted(t.cols)}")
     if isinstance(o, Identity) or (_USER_FILTER and isinstance(o, _USER_FILTER[0])):
         return t
+    if _USER_REORDER and isinstance(o, _USER_REORDER[0]):
+        return relmodel.reverse(t)
     if isinstance(o, Calculation):
         if strict and o.tag.qualified_name in t.cols:
             raise IllFormed(f"{o}: tag already present")
@@ -671,6 +700,8 @@ def pyeval(node, leafrows, bind, tags, prefer="l"):
     op = node[0]
     if op == "twice":
         return pyeval(expand_twice(node), leafrows, bind, tags, prefer)
+    if op == "custr":
+        return pyeval(node[1], leafrows, bind, tags, prefer)[::-1]
     if op == "leaf":
         if node[1] in DECLARED_COLS and all(set(r) > set(DECLARED_COLS[node[1]]) for r in leafrows[node[1]]):
             return [{c: r[c] for c in DECLARED_COLS[node[1]]} for r in leafrows[node[1]]]
@@ -759,6 +790,8 @@ def fmt(node):
         return f"{fmt(node[1])}.processed"
     if op == "cust":
         return f"{fmt(node[1])}.keepall"
+    if op == "custr":
+        return f"{fmt(node[1])}.reverse"
     return repr(node)
 
 
@@ -827,7 +860,7 @@ def cols_of(node, leafcols):
         return cols_of(expand_twice(node), leafcols)
     if op == "leaf":
         return frozenset(leafcols[node[1]])
-    if op in ("mat", "xfer", "tag", "proc", "cust", "xferp", "tagp"):
+    if op in ("mat", "xfer", "tag", "proc", "cust", "xferp", "tagp", "custr"):
         return cols_of(node[1], leafcols)
     if op == "chain":
         a, b = cols_of(node[1], leafcols), cols_of(node[2], leafcols)
@@ -914,6 +947,8 @@ def _py_apply_lib_op(rows, o):
 
     if isinstance(o, Identity) or (_USER_FILTER and isinstance(o, _USER_FILTER[0])):
         return rows
+    if _USER_REORDER and isinstance(o, _USER_REORDER[0]):
+        return rows[::-1]
     if isinstance(o, Calculation):
         return [{**r, o.tag.qualified_name: py_of_lib(o.expression, r)} for r in rows]
     if isinstance(o, Projection):
